@@ -385,7 +385,7 @@ func (o *opCtx) exec(kind, k int) string {
 			}
 		}
 	case opMSM:
-		n := []int{0, 1, 2, 3, 33, 129, 256, 700}[rng.Intn(8)]
+		n := []int{0, 1, 2, 3, 4, 5, 33, 129, 256, 700}[rng.Intn(10)]
 		pts := make([]banderwagon.Element, n)
 		sc := make([]fr.Element, n)
 		for i := range pts {
@@ -407,6 +407,24 @@ func (o *opCtx) exec(kind, k int) string {
 		_, err = r2.MultiExp(pts, sc, banderwagon.MultiExpConfig{NbTasks: []int{1, 2, 7, 16, 64, 128}[rng.Intn(6)], ScalarsMont: true})
 		d.addf("err=%v", err != nil)
 		d.elem(&r2)
+		// the same sum with the scalars handed over in regular form
+		{
+			reg := make([]fr.Element, n)
+			for i := range reg {
+				reg[i] = sc[i]
+				reg[i].FromMont()
+			}
+			reg, rChk := spareFr(reg)
+			snapR := append([]fr.Element(nil), reg...)
+			var r3 banderwagon.Element
+			r3.SetIdentity()
+			_, err = r3.MultiExp(pts, reg, banderwagon.MultiExpConfig{NbTasks: []int{0, 1, 3, 16}[rng.Intn(4)], ScalarsMont: false})
+			d.addf("err=%v", err != nil)
+			d.elem(&r3)
+			if !frEq(reg, snapR) || !rChk() {
+				o.modified("input-modified/MultiExp/regular-scalars", fmt.Sprintf("MultiExp(ScalarsMont=false) changed the caller's %d scalars (or wrote into their spare capacity)", n))
+			}
+		}
 		for i := range pts {
 			if pts[i] != snapP[i] {
 				o.modified("input-modified/MultiExp/points", "MultiExp changed the caller's points")
@@ -557,9 +575,37 @@ func (o *opCtx) exec(kind, k int) string {
 			var bi big.Int
 			a.ToBigIntRegular(&bi)
 			var f fr.Element
-			f.SetBigInt(new(big.Int).Neg(&bi))
+			// the integer is the caller's: negative, in range, or beyond the modulus
+			arg := new(big.Int).Neg(&bi)
+			switch i % 4 {
+			case 1:
+				arg.Set(&bi)
+			case 2:
+				arg.Add(&bi, new(big.Int).Mul(fr.Modulus(), big.NewInt(int64(1+rng.Intn(5)))))
+			case 3:
+				arg.Lsh(&bi, uint(1+rng.Intn(300)))
+			}
+			argSnap := new(big.Int).Set(arg)
+			f.SetBigInt(arg)
+			if arg.Cmp(argSnap) != 0 {
+				o.modified("input-modified/fr.SetBigInt", "fr.Element.SetBigInt changed the caller's big.Int "+argSnap.Text(16))
+				arg.Set(argSnap)
+			}
+			var f2 fr.Element
+			if _, err := f2.SetInterface(arg); err != nil || arg.Cmp(argSnap) != 0 {
+				o.modified("input-modified/fr.SetInterface", "fr.Element.SetInterface(*big.Int) failed or changed the caller's big.Int "+argSnap.Text(16))
+				arg.Set(argSnap)
+			}
+			var g fp.Element
+			g.SetBigInt(arg)
+			if arg.Cmp(argSnap) != 0 {
+				o.modified("input-modified/fp.SetBigInt", "fp.Element.SetBigInt changed the caller's big.Int "+argSnap.Text(16))
+			}
 			fb := f.BytesLE()
 			d.add(fb[:])
+			gb := g.Bytes()
+			d.add(gb[:])
+			d.addf("%v", f == f2)
 			if i%8 == 0 {
 				var inv, sq fr.Element
 				inv.Inverse(&a)
